@@ -61,6 +61,14 @@ class DictLikeModel(BaseModel):
         if data:
             self._data.update(data)
 
+    def __copy__(self) -> "DictLikeModel":
+        # pydantic copies the private-attribute mapping but not the values in
+        # it; without this a shallow copy shares `_data` with the original and
+        # setting a dynamic field on the copy also changes the original.
+        copied = super().__copy__()
+        copied._data = dict(self._data)
+        return copied
+
     def __getattr__(self, __name: str) -> Any:
         if (
             __name in self.__private_attributes__
